@@ -71,8 +71,23 @@ def _getx(x):
 
 
 def _model(fe):
-    from rsome import ro, dro
-    return ro.Model() if fe == 'ro' else dro.Model(2)
+    from rsome import ro, dro, lp, socp, gcp
+    return dict(ro=ro.Model, lp=lp.Model, socp=socp.Model, gcp=gcp.Model)[fe]() if fe != 'dro' else dro.Model(2)
+
+
+_ST_COUNT = [0]
+
+
+def _st(m, *cons):
+    """Post constraints: ro/dro accept several arguments; the deterministic classes (lp, socp, gcp) one constraint or one
+    iterable - lists and tuples alternate so that the iterable branch of every st() is exercised."""
+    _ST_COUNT[0] += 1
+    bare = type(m).__module__.split('.')[-1] in ('lp', 'socp', 'gcp')
+    if len(cons) == 1 and not (bare and _ST_COUNT[0] % 3 == 0):
+        return m.st(cons[0])
+    if bare or _ST_COUNT[0] % 2:
+        return m.st(list(cons) if _ST_COUNT[0] % 4 < 2 else tuple(cons))
+    return m.st(*cons)
 
 
 def run_atom(job):
@@ -86,7 +101,7 @@ def run_atom(job):
     tol = TOL[cone]
     m = _model(fe)
     x = m.dvar(atom['n'])
-    m.st(x >= atom['lo'], x <= atom['hi'])
+    _st(m, x >= atom['lo'], x <= atom['hi'])
     w = np.array([1.0, 0.7])
     expr = atom['mk'](rso, x)
     ew = atom['ew']
@@ -117,7 +132,7 @@ def run_atom(job):
         lhs = k * expr + c
         rhs = k * rr + c
         con = (lhs <= rhs) if cvx else (lhs >= rhs)
-        m.st(con)
+        _st(m, con)
         if cvx:
             m.max(w @ x)
         else:
@@ -175,8 +190,8 @@ def run_other(job):
     if kind == 'KL':
         p = m.dvar(3)
         r = 0.05
-        m.st(p >= 0, p.sum() == 1)
-        m.st(rso.kldiv(p, PHAT, r))
+        _st(m, p >= 0, p.sum() == 1)
+        _st(m, rso.kldiv(p, PHAT, r))
         m.max(p[2] - p[0])
         if not _solve(m, 'eco'):
             return dict(base, status='unsolved', sig='C06:boxed-model-not-solved:kldiv:%s' % fe)
@@ -189,9 +204,9 @@ def run_other(job):
         return out
     if kind == 'ExpCone':
         v = m.dvar(3)       # y, x, z :  z*exp(x/z) <= y
-        m.st(v >= 0.2, v <= 4)
-        m.st(v[2] == 1.5)
-        m.st(rso.expcone(v[0], v[1], v[2]))
+        _st(m, v >= 0.2, v <= 4)
+        _st(m, v[2] == 1.5)
+        _st(m, rso.expcone(v[0], v[1], v[2]))
         m.max(v[1] - v[0])
         if not _solve(m, 'eco'):
             return dict(base, status='unsolved', sig='C06:boxed-model-not-solved:expcone:%s' % fe)
@@ -204,8 +219,8 @@ def run_other(job):
     if kind == 'RSOCone':
         u = m.dvar(2)
         yz = m.dvar(2)
-        m.st(u >= -3, u <= 3, yz >= 0.1, yz <= 2)
-        m.st(rso.rsocone(u, yz[0], yz[1]))
+        _st(m, u >= -3, u <= 3, yz >= 0.1, yz <= 2)
+        _st(m, rso.rsocone(u, yz[0], yz[1]))
         m.max(u[0] + 0.5 * u[1] - 0.2 * yz[0] - 0.2 * yz[1])
         if not _solve(m, ('eco', 'grb')[job['sk'] % 2]):
             return dict(base, status='unsolved', sig='C06:boxed-model-not-solved:rsocone:%s' % fe)
@@ -217,12 +232,12 @@ def run_other(job):
         return out
     if kind in ('maxof', 'minof'):
         x = m.dvar(2)
-        m.st(x >= -3, x <= 3)
+        _st(m, x >= -3, x <= 3)
         if kind == 'maxof':
-            m.st(rso.maxof(2 * x[0] - 1, 0.5 - x[1], x[0] + x[1]) <= 1.5)
+            _st(m, rso.maxof(2 * x[0] - 1, 0.5 - x[1], x[0] + x[1]) <= 1.5)
             m.max(x[0] + 0.7 * x[1])
         else:
-            m.st(rso.minof(2 * x[0] - 1, 0.5 - x[1], x[0] + x[1]) >= -1.5)
+            _st(m, rso.minof(2 * x[0] - 1, 0.5 - x[1], x[0] + x[1]) >= -1.5)
             m.min(x[0] + 0.7 * x[1])
         if not _solve(m, ('def', 'ort', 'grb')[job['sk'] % 3]):
             return dict(base, status='unsolved', sig='C06:boxed-model-not-solved:%s:%s' % (kind, fe))
@@ -235,7 +250,7 @@ def run_other(job):
         return out
     if kind in ('maxof_obj', 'minof_obj'):
         x = m.dvar(2)
-        m.st(x >= -3, x <= 3)
+        _st(m, x >= -3, x <= 3)
         if kind == 'maxof_obj':
             m.min(rso.maxof(2 * x[0] - 1, 0.5 - x[1], x[0] + x[1]))
         else:
